@@ -43,9 +43,12 @@ VARIABLES fs,       \* [Slots -> node]
           nextIno,
           failed,   \* extraction hit an error (Push returns error; no further entries)
           unknownEscape,
+          risk,     \* symbolic links (slots) whose real resolution is not below the working directory
           hist      \* the archive so far: sequence of [k, name, nabs, tg, tabs]
-vars == <<fs, data, nextIno, failed, unknownEscape, hist>>
+vars == <<fs, data, nextIno, failed, unknownEscape, risk, hist>>
 view == <<fs, data, nextIno, failed, unknownEscape>>
+\* a rejected entry leaves the tree unchanged: viewr keeps one state per (tree, rejected entry), not one per tree
+viewr == <<fs, data, nextIno, failed, unknownEscape, IF failed THEN hist[Len(hist)] ELSE <<>> >>
 
 Inside(p) == Len(p) >= 1 /\ p[1] = "w"
 
@@ -194,9 +197,11 @@ Init ==
   /\ failed = FALSE
   /\ unknownEscape = FALSE
   /\ hist = <<>>
+  /\ risk = {}
 
 E(k, nm, tg) == [k |-> k, name |-> nm[1], nabs |-> nm[2], tg |-> tg[1], tabs |-> tg[2]]
 NoTg == <<<<>>, FALSE>>
+RiskyLinks(f) == {p \in Slots : f[p].t = "sym" /\ LET w == Resolve(f, <<>>, p, TRUE, TRUE) IN w.st = "err" \/ ~Inside(w.p)}
 Next == /\ ~failed /\ nextIno < 8 /\ Len(hist) < Depth
         /\ \E nm \in Names \cup (IF Named THEN Titles ELSE {}) :
              \/ (nm \in Names /\ EntryReg(nm[1], nm[2]) /\ hist' = Append(hist, E("reg", nm, NoTg)))
@@ -210,6 +215,7 @@ Next == /\ ~failed /\ nextIno < 8 /\ Len(hist) < Depth
                   /\ nm \in Names
                   /\ \/ (EntrySym(nm[1], nm[2], tg[1], tg[2]) /\ hist' = Append(hist, E("sym", nm, tg)))
                      \/ (EntryHard(nm[1], nm[2], tg[1], tg[2]) /\ hist' = Append(hist, E("hard", nm, tg)))
+        /\ risk' = RiskyLinks(fs')
 Spec == Init /\ [][Next]_vars
 
 OutsideUnchanged ==
